@@ -1,4 +1,5 @@
 import Oidc.Proofs.World3
+import Oidc.Proofs.WorldHist
 import Oidc.Proofs.World2
 import Oidc.Facts
 /-! # C03 — a login completes only with the state, nonce and PKCE verifier that started it (property theorems only)
@@ -25,6 +26,29 @@ theorem callback_binds (c : Cfg) (e : Env) (r : Req) (v : View) (h : (handleCall
     or the one stored before, or none — so by induction it is always the state of the most recent initiation or empty -/
 theorem csrf_after_step (c : Cfg) (e : Env) (r : Req) (v : View) : CsrfAfter v (serveV c e r v) :=
   Oidc.World.csrf_after_step c e r v
+
+/-- **history.** after any sequence of requests of one browser (any environments), the (state, nonce, verifier) its jar
+    holds is: none; or what the jar started with, if no step was a login redirect; or exactly the triple issued by the
+    *most recent* login redirect -/
+theorem params_of_latest_initiation (c : Cfg) (fuel : Nat) (steps : List (Env × Req)) (j : Jar) :
+    (jarLp (runBrowser c fuel j steps).1).1 = [] ∨
+    (lastInit c (hist c fuel j steps) = none ∧ jarLp (runBrowser c fuel j steps).1 = jarLp j) ∨
+    lastInit c (hist c fuel j steps) = some (jarLp (runBrowser c fuel j steps).1) :=
+  Oidc.World.lp_history c fuel steps j
+
+/-- **history, the binding.** a callback at the end of any such sequence (started from a jar without state) stores a session
+    only if the sequence contains a login redirect and, for the most recent one, the callback's `state` is its state, the
+    code was exchanged (one call) with its verifier, and the verified ID token carries its nonce -/
+theorem callback_completes_latest (c : Cfg) (fuel : Nat) (pre : List (Env × Req)) (j0 : Jar) (e : Env) (r : Req)
+    (h0 : (jarLp j0).1 = [])
+    (hx : excludedPath c r.path = false) (hl : r.path ≠ c.logout) (hc : r.path = c.callback)
+    (hs : (serveJar c e r (runBrowser c fuel j0 pre).1 fuel).1.saved ≠ []) :
+    ∃ st no ver, lastInit c (hist c fuel j0 pre) = some (st, no, ver) ∧
+      r.qState = st ∧ st ≠ [] ∧ no ≠ [] ∧
+      ∃ idRaw rt, e.exchange r.qCode ver (r.base ++ c.callback) = .ok idRaw rt ∧ e.verifyTok idRaw = true ∧
+        (e.tok idRaw).nonce = some no ∧
+        (serveJar c e r (runBrowser c fuel j0 pre).1 fuel).1.calls = [Call.exchange r.qCode ver (r.base ++ c.callback)] :=
+  Oidc.World.callback_completes_latest c fuel pre j0 e r h0 hx hl hc hs
 
 /-- the values placed in the login redirect are the values stored in the cookie: state `rnd 0`, nonce `rnd 1`, and (PKCE) the
     challenge is `s256` of the stored verifier `rnd 2` -/
